@@ -1,29 +1,73 @@
 // units/dec_comp/aw.rs — AwarenessUpdate decoder of yrs/src/sync/awareness.rs
 
 // ---------------------------------------------------------------------------------------------
-// strings (same stand-ins as unit tags)
+// strings: the REAL default method `Read::read_string` over ONE trusted std stand-in (`std::str::from_utf8`)
 // ---------------------------------------------------------------------------------------------
-/// the UTF-8 bytes of a string / the string `from_utf8_unchecked` makes of a byte buffer
+/// the UTF-8 bytes of a string / whether a byte buffer is well-formed UTF-8 / the string a well-formed buffer denotes
 pub uninterp spec fn utf8(s: Seq<char>) -> Seq<u8>;
+pub uninterp spec fn valid_utf8(b: Seq<u8>) -> bool;
 pub uninterp spec fn from_utf8(b: Seq<u8>) -> Seq<char>;
 
-pub trait ReadStr: Read {
-    /// TRUSTED stand-in for the default method `Read::read_string` (real body: `unsafe { from_utf8_unchecked(self.read_buf()?) }`,
-    /// not ingestible and undefined behaviour on non-UTF-8 input, DESIGN A9; verbatim the stand-in of unit tags):
-    /// read_buf + the uninterpreted conversion.  DecoderV2 OVERRIDES read_string (separate string column): not modelled.
+pub mod vx_std_str {
+    use vstd::prelude::*;
+    use super::{valid_utf8, from_utf8};
+
+    /// opaque stand-in for `core::str::Utf8Error` (only ever discarded by `map_err(|_| ..)`)
     #[verifier::external_body]
-    fn read_string(&mut self) -> (res: Result<&str, Error>)
+    pub struct Utf8ErrorStandIn {
+        inner: core::str::Utf8Error,
+    }
+
+    /// A9 (TRUSTED std stand-in): `std::str::from_utf8(buf)` -- "Converts a slice of bytes to a string slice. [...] not all byte
+    /// slices are valid string slices [...] Returns Err if the slice is not UTF-8": Ok(s), s the string the bytes denote, IFF the
+    /// buffer is well-formed UTF-8.  `valid_utf8` / `from_utf8` are uninterpreted (no axioms about them).
+    #[verifier::external_body]
+    pub fn vx_from_utf8(buf: &[u8]) -> (r: Result<&str, Utf8ErrorStandIn>)
+        ensures
+            match r {
+                Ok(s) => valid_utf8(buf@) && s@ == from_utf8(buf@),
+                Err(_) => !valid_utf8(buf@),
+            },
+    {
+        match std::str::from_utf8(buf) {
+            Ok(s) => Ok(s),
+            Err(e) => Err(Utf8ErrorStandIn { inner: e }),
+        }
+    }
+
+    /// A9b (TRUSTED std stand-in, NOT used by the current code: it only gives the regression canary `read_string_unchecked`
+    /// something to fail): `unsafe { std::str::from_utf8_unchecked(buf) }` -- "Safety: The bytes passed in must be valid
+    /// UTF-8": the documented safety condition is the precondition.
+    #[verifier::external_body]
+    pub fn vx_from_utf8_unchecked(buf: &[u8]) -> (r: &str)
+        requires
+            valid_utf8(buf@),
+        ensures
+            r@ == from_utf8(buf@),
+    {
+        unsafe { std::str::from_utf8_unchecked(buf) }
+    }
+}
+use vx_std_str::*;
+
+pub trait ReadStr: Read {
+    // the REAL body of the default method `Read::read_string` (repaired in /repo, finding F-DC-10: it used
+    // `from_utf8_unchecked` on untrusted bytes): `read_buf`, then the CHECKED conversion.  Decoding succeeds only for
+    // well-formed UTF-8; an ill-formed buffer is consumed and reported as an error.
+    // DecoderV2 OVERRIDES read_string (separate string column; its StringDecoder::new validates the column the same way): not modelled.
+    /*@extract yrs/src/encoding/read.rs | trait Read: Sized | fn read_string | label=read_string
+    @ret res
+    @sig
         requires
             old(self).wf(),
         ensures
             final(self).wf(),
             match dec_buf(old(self).rest()) {
-                Some((b, k)) => res is Ok && res->Ok_0@ == from_utf8(b) && k <= old(self).rest().len() && final(self).rest() == old(self).rest().skip(k as int),
+                Some((b, k)) => k <= old(self).rest().len() && final(self).rest() == old(self).rest().skip(k as int)
+                    && (if valid_utf8(b) { res is Ok && res->Ok_0@ == from_utf8(b) } else { res is Err }),
                 None => res is Err && suffix_of(old(self).rest(), final(self).rest()),
             },
-    {
-        unimplemented!()
-    }
+    @*/
 }
 
 impl<R: Read> ReadStr for R {}
@@ -88,7 +132,8 @@ pub open spec fn au_view(m: Map<ClientID, AwarenessUpdateEntry>) -> Map<ClientID
     m.map_values(|e: AwarenessUpdateEntry| au_ent(e))
 }
 
-/// one entry: client as u64 var-int (must fit into 53 bits), clock as u32 var-int, JSON as length-prefixed string
+/// one entry: client as u64 var-int (must fit into 53 bits), clock as u32 var-int, JSON as length-prefixed string that must
+/// be well-formed UTF-8 (F-DC-10, repaired)
 pub open spec fn dec_au_item(s: Seq<u8>) -> Option<((ClientID, AuEnt), nat)> {
     match dec_u64(s) {
         None => None,
@@ -96,7 +141,7 @@ pub open spec fn dec_au_item(s: Seq<u8>) -> Option<((ClientID, AuEnt), nat)> {
             None => None,
             Some((clock, k2)) => match dec_buf(s.skip((k + k2) as int)) {
                 None => None,
-                Some((b, k3)) => Some(((ClientID(client), (clock, from_utf8(b))), k + k2 + k3)),
+                Some((b, k3)) => if valid_utf8(b) { Some(((ClientID(client), (clock, from_utf8(b))), k + k2 + k3)) } else { None },
             },
         } },
     }
@@ -144,7 +189,7 @@ pub proof fn lemma_au_item_cases(sa: Seq<u8>)
                         1 <= k2 <= sb.len() && suffix_of(sa, sc) && sc == sa.skip((k1 + k2) as int) && match dec_buf(sc) {
                             None => dec_au_item(sa) is None,
                             Some((b, k3)) => 1 <= k3 <= sc.len() && suffix_of(sa, sc.skip(k3 as int)) && sc.skip(k3 as int) == sa.skip((k1 + k2 + k3) as int)
-                                && dec_au_item(sa) == Some(((ClientID(client), (clock, from_utf8(b))), k1 + k2 + k3)),
+                                && if valid_utf8(b) { dec_au_item(sa) == Some(((ClientID(client), (clock, from_utf8(b))), k1 + k2 + k3)) } else { dec_au_item(sa) is None },
                         }
                     },
                 } }
